@@ -32,7 +32,44 @@ def _unchanged(h, name, arr, snap):
     h.ensure('%s-untouched' % name, ok)
 
 
-def _mk(h, solver, tol, fit_intercept, weighted):
+def _attr_snapshot(obj, skip=()):
+    """public attributes of a solver / datafit / penalty object: scalars by value, arrays element by element"""
+    snap = {}
+    try:
+        items = list(vars(obj).items())
+    except TypeError:                       # jitted replay: a jitclass instance has no __dict__ (its arrays are checked directly)
+        items = []
+    for k, v in items:
+        if k in skip or k.startswith('_'):
+            continue
+        if isinstance(v, np.ndarray):
+            snap[k] = ('arr', _snapshot(v))
+        elif isinstance(v, (bool, int, float, str, type(None))) or hasattr(v, 'z'):
+            snap[k] = ('val', v)
+    return snap
+
+
+def _attrs_unchanged(h, name, obj, snap):
+    ok = h.true()
+    for k, (kind, old) in snap.items():
+        cur = getattr(obj, k, None)
+        if kind == 'arr':
+            if not isinstance(cur, np.ndarray) or cur.size != len(old):
+                ok = h.false()
+                continue
+            for a, b in zip(_snapshot(cur), old):
+                if not (_isinf(a) or _isinf(b)):
+                    ok = h.and_(ok, h.eq(a, b))
+        elif isinstance(old, (str, type(None), bool)):
+            ok = h.and_(ok, h.true() if (cur is old or cur == old) else h.false())
+        elif _isinf(old) or _isinf(cur):
+            ok = h.and_(ok, h.true() if (_isinf(old) and _isinf(cur)) else h.false())
+        else:
+            ok = h.and_(ok, h.eq(cur, old))
+    h.ensure('%s-attributes-untouched' % name, ok)
+
+
+def _mk(h, solver, tol, fit_intercept, weighted, datafit='Quadratic', sw=None):
     import skglm.solvers as S
     Pm, Dm = P(), D()
     al = h.real('alpha')
@@ -52,7 +89,7 @@ def _mk(h, solver, tol, fit_intercept, weighted):
         pen = h.penalty(Pm.WeightedL1, alpha=al, weights=wt)
     else:
         pen = h.penalty(Pm.L1, alpha=al)
-    df = h.datafit(Dm.Quadratic)
+    df = h.datafit(Dm.Quadratic) if datafit == 'Quadratic' else h.datafit(Dm.WeightedQuadratic, sample_weights=sw)
     if solver == 'AndersonCD':
         sol = S.AndersonCD(max_iter=1, max_epochs=1, p0=2, tol=tol, fit_intercept=fit_intercept)
     elif solver == 'ProxNewton':
@@ -63,16 +100,22 @@ def _mk(h, solver, tol, fit_intercept, weighted):
     return df, pen, sol, wt
 
 
-def u_two_solves(h, solver, fit_intercept=False, weighted=False, XA='gen32', XB='corr32'):
+def u_two_solves(h, solver, fit_intercept=False, weighted=False, XA='gen32', XB='corr32', datafit='Quadratic'):
     tol = h.real('tol')
     h.assume(tol > 0)
     A, B = X_of(XA), X_of(XB)
+    sw = None
+    if datafit == 'WeightedQuadratic':
+        # catalogue sample weights (not summing to 1): symbolic weights make every residual a rational function of them
+        sw = h.const(np.array([1.5, 1.0, 2.0, 0.5][:B.shape[0]]))
     # problem A only provides a history: its targets come from a catalogue (keeps the path count of the A-run small)
     yA, yB = h.const(np.array([1.0, -2.0, 0.5][:A.shape[0]])), h.vec('yB', B.shape[0])
     XAd, XBd = h.const(A), h.const(B)
-    df, pen, sol, wt = _mk(h, solver, tol, fit_intercept, weighted)
+    df, pen, sol, wt = _mk(h, solver, tol, fit_intercept, weighted, datafit, sw)
     snapXB, snapyB = _snapshot(XBd), _snapshot(yB)
     snapw = _snapshot(wt) if wt is not None else None
+    snapsw = _snapshot(sw) if sw is not None else None
+    snapsol, snappen = _attr_snapshot(sol), _attr_snapshot(pen)
     if solver in ('ProxNewton',):
         DR._patch_pn(h, 2, 2)
     try:
@@ -83,7 +126,9 @@ def u_two_solves(h, solver, fit_intercept=False, weighted=False, XA='gen32', XB=
             df.initialize(XBd, yB)
         w1, o1, s1 = sol._solve(XBd, yB, df, pen)
         w1 = [w1[k] for k in range(len(w1))]
-        df2, pen2, sol2, _ = _mk(h, solver, tol, fit_intercept, weighted)     # fresh objects (same symbolic hyper-parameters)
+        df2, pen2, sol2, _ = _mk(h, solver, tol, fit_intercept, weighted, datafit,
+                                 h.arr(snapsw) if (sw is not None and h.mode == 'sym') else
+                                 (np.array(snapsw, dtype=float) if sw is not None else None))     # fresh objects (same symbolic hyper-parameters)
         if df2 is not None and hasattr(df2, 'initialize'):
             df2.initialize(XBd, yB)
         w2, o2, s2 = sol2._solve(XBd, yB, df2, pen2)
@@ -101,6 +146,10 @@ def u_two_solves(h, solver, fit_intercept=False, weighted=False, XA='gen32', XB=
     _unchanged(h, 'y', yB, snapyB)
     if wt is not None:
         _unchanged(h, 'weights', pen.weights, snapw)
+    if sw is not None:
+        _unchanged(h, 'sample-weights', sw, snapsw)
+    _attrs_unchanged(h, 'solver', sol, snapsol)
+    _attrs_unchanged(h, 'penalty', pen, snappen)
 
 
 def u_path_pure(h, fit_intercept, epochs=1):
@@ -123,6 +172,7 @@ def u_path_pure(h, fit_intercept, epochs=1):
     snaps = dict(X=_snapshot(Xd), y=_snapshot(y), weights=_snapshot(pen.weights), alphas=_snapshot(alphas),
                  w_init=_snapshot(w_init))
     sol = S.AndersonCD(max_iter=1, max_epochs=epochs, p0=1, tol=tol, fit_intercept=fit_intercept)
+    snapsol = _attr_snapshot(sol)
     old = acd.check_array
     if h.mode == 'sym':
         acd.check_array = lambda a, *args, **kw: a
@@ -136,6 +186,7 @@ def u_path_pure(h, fit_intercept, epochs=1):
     _unchanged(h, 'weights', pen.weights, snaps['weights'])
     _unchanged(h, 'alphas', alphas, snaps['alphas'])
     _unchanged(h, 'w_init', w_init, snaps['w_init'])
+    _attrs_unchanged(h, 'solver', sol, snapsol)          # path() must not turn its bookkeeping into solver state
 
 
 def u_refit(h, kind):
@@ -182,11 +233,11 @@ def units(tier):
     us = []
     q = tier == 'quick'
     for solver, fi, wtd in (('AndersonCD', False, False), ('AndersonCD', False, True), ('GramCD', False, True),
-                            ('GroupBCD', False, False)) + \
+                            ('GroupBCD', False, False), ('AndersonCD', True, 'wq')) + \
             ((('AndersonCD', True, True), ('ProxNewton', False, False), ('ProxNewton', True, True), ('GroupBCD', True, False))
              if not q else ()):
         us.append(Unit('C18/D/two-solves[%s,intercept=%s,weighted=%s]' % (solver, fi, wtd), u_two_solves,
-                       dict(solver=solver, fit_intercept=fi, weighted=wtd), wall_s=150, max_paths=6000, timeout_ms=8000,
+                       dict(solver=solver, fit_intercept=fi, weighted=wtd is True, datafit='WeightedQuadratic' if wtd == 'wq' else 'Quadratic'), wall_s=150, max_paths=6000, timeout_ms=8000,
                        patched=solver == 'ProxNewton'))
     for fi in (False, True):
         us.append(Unit('C18/D/path-inputs-untouched[intercept=%s]' % fi, u_path_pure, dict(fit_intercept=fi, epochs=0 if q else 1), wall_s=150,
